@@ -264,6 +264,26 @@ def run(repo: Repo) -> Result:
         # top-level tests: the strict test must come first (a raise inside lax/warn never happens)
         res.sample({"rule": "C03-DISPATCH", "function": fn.qual, "raises": len(raises), "warns": len(warns)})
 
+    # the dispatchers are total: whatever they call on the lax / warn legs (the warning category
+    # lookup, str(exc)) lets nothing escape — otherwise "suppressing" an error raises another one
+    # (exception-escape analysis, sa/engines/exc.py, rooted at the two dispatchers)
+    from ..engines.exc import Exc
+
+    ex = Exc(repo)
+    droots = [(repo.own_method("liquid.environment.Environment", "error"), {}), (repo.own_method("liquid.context.RenderContext", "error"), {})]
+    ex.run(droots)
+    for rk in ex.root_keys:
+        res.ob(f"dispatch-total:{rk[0]}")
+        for site in ex.summaries[rk].escapes:
+            res.add(
+                "C03-DISPATCH",
+                rk[0],
+                f"escape:{site.func.split('.')[-1]}:{site.prim}:{site.exc}",
+                f"{rk[0]}: `{site.prim}` on `{site.arg[:50]}` in {site.func} may raise {site.exc} while an error is being suppressed (lax) or reported as a warning (warn): the mode no longer suppresses, it replaces the error",
+                site.file,
+                site.line,
+            )
+
     # ---- C03-MODE ----------------------------------------------------------
     dispatchers = {"liquid.environment.Environment.error", "liquid.context.RenderContext.error"}
     tag_mode_classes = {c.qual for c in repo.all_classes() if "mode" in c.attrs}
